@@ -71,10 +71,15 @@ func LoadEngine(repo string, patterns []string, contractFiles []string) (*Engine
 			case *ssa.Function:
 				E.addFunc(x)
 			case *ssa.Type:
-				ms := prog.MethodSets.MethodSet(types.NewPointer(x.Type()))
-				for i := 0; i < ms.Len(); i++ {
-					if f := prog.MethodValue(ms.At(i)); f != nil && f.Synthetic == "" {
-						E.addFunc(f)
+				for _, recvT := range []types.Type{types.NewPointer(x.Type()), x.Type()} {
+					if _, isIface := x.Type().Underlying().(*types.Interface); isIface {
+						break
+					}
+					ms := prog.MethodSets.MethodSet(recvT)
+					for i := 0; i < ms.Len(); i++ {
+						if f := prog.MethodValue(ms.At(i)); f != nil && f.Synthetic == "" {
+							E.addFunc(f)
+						}
 					}
 				}
 			}
